@@ -172,7 +172,19 @@ fn help_for(u: &mut Un, names: &mut Names, cfg: &BroadCfg) -> Option<DocSpec> {
             }
         }
         HelpGen::Markers => {
-            if u.chance(200) {
+            if u.chance(25) {
+                // a styled document of several fragments with the empty line inside one of them
+                let first = marker(names, "Hlp");
+                let second = marker(names, "Deep");
+                let tail = marker(names, "Tail");
+                Some(DocSpec(vec![
+                    (StyleK::Text, "about ".into()),
+                    (StyleK::Literal, "lit".into()),
+                    (StyleK::Text, format!(" {}\n\nmore {} ", first, second)),
+                    (StyleK::Emphasis, "em".into()),
+                    (StyleK::Text, format!(" {}", tail)),
+                ]))
+            } else if u.chance(200) {
                 let first = marker(names, "Hlp");
                 if u.chance(80) {
                     let second = marker(names, "Deep");
@@ -466,7 +478,14 @@ fn gen_info(u: &mut Un, names: &mut Names, cfg: &BroadCfg, depth: usize) -> Info
             info.footer = Some(DocSpec::plain(gen_grammar_text(u, names).replace("Hlp", "Footer")));
         }
     } else if cfg.help != HelpGen::None {
-        if u.chance(150) {
+        if u.chance(25) {
+            // first line made of several fragments
+            info.descr = Some(DocSpec(vec![
+                (StyleK::Text, "wraps ".into()),
+                (StyleK::Literal, "cargo build".into()),
+                (StyleK::Text, format!(" for {}", marker(names, "Descr"))),
+            ]));
+        } else if u.chance(150) {
             info.descr = Some(DocSpec::plain(marker(names, "Descr")));
         }
         if u.chance(100) {
